@@ -185,6 +185,23 @@ pub static C11: CheckSpec = CheckSpec {
     assumptions: &["'accepted' = reported as Event::Discovered (the records handed to the query and the routing-table update); the local node's own record is never reported and is excluded", "the scripted handler delivers at most `total` (of the first packet) responses per request, like the real handler", "completeness is only demanded of honest, complete answers of at most 16 records"],
 };
 
+pub static C12: CheckSpec = CheckSpec {
+    id: "C12",
+    level: "exploration",
+    scenarios: &[
+        Scenario { name: "table-policy", weight: 3, run: worlds::s_table::run },
+        Scenario { name: "identity-adversary", weight: 1, run: worlds::h_adv::run_c01 },
+    ],
+    runs_quick: 40_000,
+    runs_thorough: 2_000_000,
+    cap_quick_s: 75,
+    cap_thorough_s: 1200,
+    rule: "table-policy (real service, scripted handler): 10-70 steps over a universe of 6-26 real signed records: Established (incoming/outgoing, record shapes v4 / none / v6-only / both / v4-mapped v6 / v4+tcp, sequence number equal or higher than known), add_enr (lower/equal/higher seq), remove_node, disconnect_node, lookups whose FINDNODEs are answered with records of any shape and seq lower/equal/higher (discovered records), PONGs advertising higher seqs, request failures, idle time; IP mode v4 / v6 / dual stack; table filter none / no-tcp / odd-seq; the routing table is read after every step. identity-adversary (real handlers, W-H): the C01 scenario, which also lets the adversary handshake under its own id with a record advertising its real source, no address, or somebody else's address and demands that an incoming Established carries a record whose UDP address equals the observed source; non-trivial = the table was non-empty at the end / an attack datagram was injected; distinct = distinct event-log hash",
+    components_real: REAL_SERVICE,
+    components_stub: STUB_SERVICE,
+    assumptions: &["the scripted handler reports, like the real one, only records whose address is absent or equals the source, and never a record older than (or a different one with the same seq as) the one the service knows", "'every entry was the subject of an Established or add_enr' is checked over the whole run (not since its last absence)"],
+};
+
 pub static C13: CheckSpec = CheckSpec {
     id: "C13",
     level: "exploration",
@@ -247,7 +264,7 @@ pub static C03: CheckSpec = CheckSpec {
     assumptions: &["a challenge's expiry is request_timeout after the WHOAREYOU or after the last delivered handshake that may have re-armed it (invalid-signature re-insert)", "the oracle trusts the crate's id-signature verification to attribute an accepted handshake to the challenge it answers"],
 };
 
-pub static ALL: &[&CheckSpec] = &[&C01, &C02, &C03, &C04, &C07, &C08, &C09, &C10, &C11, &C13, &C15, &C16, &C18, &C19];
+pub static ALL: &[&CheckSpec] = &[&C01, &C02, &C03, &C04, &C07, &C08, &C09, &C10, &C11, &C12, &C13, &C15, &C16, &C18, &C19];
 
 pub fn lookup(id: &str) -> Option<&'static CheckSpec> {
     ALL.iter().copied().find(|c| c.id.eq_ignore_ascii_case(id))
